@@ -174,6 +174,8 @@ def gen(t, tier):
         sc['pre_task'] = {'levels': sorted(set(t.choice(nlev) for _ in range(2)))}
     sc['tz'] = t.pick(C.TIMEZONES)
     sc['mtime_res'] = t.pick([None, None, None, 1.0, 2.0])      # granularity of the file system's time stamps
+    # the same level selection spelled as `resolutions:` (the exact resolutions of the selected levels of this grid)
+    sc['levels_as_res'] = t.chance(0.2)
     return sc
 
 
@@ -483,7 +485,17 @@ def _run(sc, tape):
         mode = sc['mode']
         cconf = {'caches': ['c1'], 'grids': ['g']}
         if sc['levels'] is not None:
-            cconf['levels'] = sc['levels']
+            lv, as_res = sc['levels'], None
+            if sc.get('levels_as_res'):
+                if isinstance(lv, list) and lv and all(l_ < nlev for l_ in lv):
+                    as_res = [grid.resolutions[l_] for l_ in lv]
+                elif isinstance(lv, dict) and lv and all(v_ < nlev for v_ in lv.values()):
+                    as_res = dict((k_, grid.resolutions[v_]) for k_, v_ in lv.items())
+            if as_res:
+                cconf['resolutions'] = as_res
+                probes['levels_given_as_resolutions'] = 1
+            else:
+                cconf['levels'] = lv
         T = None
         if mode == 'remove_all':
             cconf['remove_all'] = True
